@@ -186,7 +186,12 @@ fn well_formed(ops: &[Op]) -> bool {
                 }
                 live[s as usize] = 0
             }
-            Op::NewHandle(_, Conv::ToOther) | Op::DropHandle(_) => {
+            Op::StreamIsTerm(s) => {
+                if live[s as usize] != 3 {
+                    return false;
+                }
+            }
+            Op::NewHandle(_, Conv::ToOther) | Op::DropHandle(_) | Op::DropHandleUnwinding(_) => {
                 if live.iter().any(|x| *x != 0) {
                     return false;
                 }
@@ -201,7 +206,7 @@ fn well_formed(ops: &[Op]) -> bool {
 /// issued through (the others exist identically on both flavours or are
 /// reached through a borrowed `as_sync`/`as_async` view, which C09 covers).
 fn flavour_sensitive(o: &Op) -> bool {
-    matches!(o, Op::Send | Op::Recv | Op::NewHandle(..) | Op::DropHandle(_))
+    matches!(o, Op::Send | Op::Recv | Op::NewHandle(..) | Op::DropHandle(_) | Op::DropHandleUnwinding(_))
 }
 
 /// Drop programs that differ from another one only in the flavour of a thread
@@ -1356,14 +1361,29 @@ fn c09(thorough: bool) -> Suite {
     ps.extend(product(
         "c09-core",
         &[
-            seqs_upto(&[Op::Send, Op::TrySend, Op::SendT(2), Op::Close(Side::S)], if thorough { 2 } else { 1 }),
-            seqs_upto(&[Op::Recv, Op::TryRecv, Op::RecvT(2), Op::Drain(VecState::Empty), Op::Close(Side::R)], if thorough { 2 } else { 1 }),
+            seqs_upto(&[Op::Send, Op::TrySend, Op::SendRepoll, Op::Close(Side::S)], if thorough { 2 } else { 1 }),
+            seqs_upto(&[Op::Recv, Op::TryRecv, Op::RecvRepoll, Op::Drain(VecState::Empty), Op::Close(Side::R)], if thorough { 2 } else { 1 }),
         ],
         &[Cap::B(0), Cap::B(1)],
         &[Class::DL],
         &all_flavours(2),
         &ctor_via,
-        &[env(2, 1, None, if thorough { Some(4) } else { UNB }), env(2, 1, Some(0), if thorough { Some(4) } else { UNB })],
+        &[env(2, 1, None, if thorough { Some(4) } else { UNB })],
+        true,
+    ));
+    // timed operations (issued through borrowed sync views on async handles)
+    // and a spurious first park, over two construction routes
+    ps.extend(product(
+        "c09-timed-sp",
+        &[
+            seqs(&[Op::Send, Op::SendT(2), Op::TrySend], 1),
+            seqs(&[Op::Recv, Op::RecvT(2), Op::TryRecv], 1),
+        ],
+        &[Cap::B(0), Cap::B(1)],
+        &[Class::DL],
+        &all_flavours(2),
+        &[(S, Conv::CloneOther), (A, Conv::ToOther)],
+        &[env(2, 1, None, UNB), env(2, 1, Some(0), UNB)],
         true,
     ));
     ps.extend(product(
@@ -1517,6 +1537,8 @@ fn c11(thorough: bool) -> Suite {
                 vec![Op::NewHandle(Side::S, Conv::Clone), Op::Send, Op::DropHandle(Side::S), Op::TrySend],
                 vec![Op::NewHandle(Side::S, Conv::CloneOther), Op::DropHandle(Side::S), Op::Send],
                 vec![Op::TrySend, Op::NewHandle(Side::S, Conv::CloneOther), Op::DropHandle(Side::S), Op::SCount(Side::S), Op::TrySend],
+                vec![Op::TrySend, Op::DropHandleUnwinding(Side::S)],
+                vec![Op::NewHandle(Side::S, Conv::Clone), Op::DropHandleUnwinding(Side::S), Op::Send, Op::DropHandleUnwinding(Side::S)],
                 vec![Op::Len(Side::S)],
             ],
             seqs_upto(&[Op::Recv, Op::TryRecv, Op::RecvT(2), Op::Next, Op::IsDisc(Side::R), Op::IsTerm, Op::RecvRepoll], 2),
@@ -1540,6 +1562,7 @@ fn c11(thorough: bool) -> Suite {
                 vec![Op::NewHandle(Side::R, Conv::CloneOther), Op::Recv, Op::DropHandle(Side::R)],
                 vec![Op::NewHandle(Side::R, Conv::CloneOther), Op::DropHandle(Side::R), Op::TryRecv, Op::TryRecv],
                 vec![Op::TryRecv, Op::NewHandle(Side::R, Conv::Clone), Op::DropHandle(Side::R), Op::RCount(Side::R), Op::TryRecv],
+                vec![Op::TryRecv, Op::DropHandleUnwinding(Side::R)],
             ],
         ],
         &CAPS3,
@@ -1859,6 +1882,22 @@ fn c14(thorough: bool) -> Suite {
         &[vec![(A, A), (S, S)], vec![(A, A), (A, A)]],
         &[(S, Conv::Clone)],
         &[env(2, 1, None, UNB)],
+        false,
+    ));
+    // a future dropped in the claimed-but-not-completed window while a third
+    // thread uses the non-blocking operations
+    ps.extend(product(
+        "c14-3thr-drop",
+        &[
+            seqs(&[Op::Send, Op::TrySend], 1),
+            vec![vec![Op::FRecv(0), Op::Poll(0, 0), Op::FDrop(0)], vec![Op::FRecv(0), Op::Poll(0, 0), Op::Poll(0, 1)]],
+            seqs(&[Op::TrySend, Op::TryRecv, Op::Drain(VecState::Spare)], 1),
+        ],
+        &[Cap::B(0), Cap::B(1)],
+        &[Class::DL],
+        &[vec![(S, S), (A, A), (S, S)]],
+        &[(S, Conv::Clone)],
+        &[env(2, 1, None, pb3(thorough)), stalled(env(2, 1, None, pb3(thorough)), 14)],
         false,
     ));
     ps.extend(product(
